@@ -4,6 +4,8 @@ import (
 	"fmt"
 	"testing"
 
+	colarspb "github.com/open-telemetry/otel-arrow/api/experimental/arrow/v1"
+
 	"verif/common/canon"
 	"verif/common/gen"
 	"verif/common/vc"
@@ -16,9 +18,22 @@ func frameHistory(c *vc.Case, h *History, o OptSet, prop string) (*FrameMon, *St
 	s := NewStream(o)
 	fm := NewFrameMon(o.LimitValue())
 	refused := 0
+	// a receiver that lags behind: the emitted batches are kept AS RETURNED (not cloned) and framed a
+	// second time once the whole history has been produced (large lazy ramps excepted, for memory)
+	type kept struct {
+		k   int
+		sig canon.Signal
+		bar *colarspb.BatchArrowRecords
+	}
+	var lag []kept
 	for k := 0; k < h.Len(); k++ {
 		b := h.At(k)
 		h.Forget(k - 1)
+		if k%5 == 3 {
+			// periodic stats reporting is ordinary use of the producer between two batches
+			_ = capture(func() { _ = s.P.GetAndResetStats() })
+			c.Count("stats_polls_between_batches", 1)
+		}
 		bar, err, pi := s.Encode(b)
 		c.Count("batches", 1)
 		if pi != nil {
@@ -42,6 +57,22 @@ func frameHistory(c *vc.Case, h *History, o OptSet, prop string) (*FrameMon, *St
 			// reported, not deciding (row count is C01-C03's business)
 			c.Count("main_payloads", 1)
 		}
+		if h.Gen == nil {
+			lag = append(lag, kept{k, b.Sig, bar})
+		}
+	}
+	if len(lag) > 0 {
+		fm2 := NewFrameMon(o.LimitValue())
+		for _, kb := range lag {
+			for _, f := range fm2.Observe(kb.sig, kb.bar) {
+				if f.Prop == prop {
+					c.ViolationFor(prop, "lagging receiver (batches framed after the whole history was produced): "+f.Sig, f.Detail,
+						witness(h, kb.k, o, map[string]any{"finding": f.Sig, "detail": f.Detail, "note": "the same batch was well framed when it was returned"}))
+				}
+			}
+			c.Count("batches_framed_again_by_a_lagging_receiver", 1)
+		}
+		fm2.Close()
 	}
 	fm.Close()
 	s.Close()
@@ -65,7 +96,7 @@ func TestC12(t *testing.T) {
 	carve, carveNames := carveFor("C12")
 	r.Meta(vc.Meta{
 		Level:       "exploration",
-		Rule:        "case = one stream history (single signal or traces/logs/metrics interleaved on ONE producer; random dictionary limit / reset threshold / zstd; cardinality ramps that force schema changes and dictionary resets; histories with refused oversize batches) whose every emitted BatchArrowRecords is checked online: batch id = previous+1, first payload = main type, payload types unique, related payloads non-empty, schema id write-once per (type, schema) and never reused after retirement, per-id IPC message sequence [Schema] Dict* RecordBatch without trailing bytes, an independent ipc.Reader per schema id yields exactly one record per payload with all dictionary indices in range. Non-trivial = history with >=1 retired schema id or >=1 dictionary replacement. Distinct = (script, signals, options, #retired ids, #replacements).",
+		Rule:        "case = one stream history (single signal or traces/logs/metrics interleaved on ONE producer; random dictionary limit / reset threshold / zstd; cardinality ramps that force schema changes and dictionary resets; histories with refused oversize batches) with periodic GetAndResetStats() calls between batches, whose every emitted BatchArrowRecords is checked online, and a second time by a lagging receiver that frames the batches exactly as they were returned (not cloned) after the whole history has been produced: batch id = previous+1, first payload = main type, payload types unique, related payloads non-empty, schema id write-once per (type, schema) and never reused after retirement, per-id IPC message sequence [Schema] Dict* RecordBatch without trailing bytes, an independent ipc.Reader per schema id yields exactly one record per payload with all dictionary indices in range. Non-trivial = history with >=1 retired schema id or >=1 dictionary replacement. Distinct = (script, signals, options, #retired ids, #replacements).",
 		Assumptions: []string{"the independent reader is arrow-go's ipc package (independent of the repository's Consumer, not of the Arrow library)", "sampled histories"},
 		Gates: map[string]map[string]int{
 			"quick":    {"retired_schema_ids": 100, "payloads": 3000, "obs.reset": 1, "ipc.dictionary_msgs": 100, "refused_batches": 8},
